@@ -56,6 +56,9 @@ type Forged struct {
 	Widths   []int `json:"widths"`    // cells in each row of the block
 	RowsDecl int   `json:"rows_decl"` // row count the table declares
 	GoodIdx  bool  `json:"good_idx"`  // the table lists the block index a keyless indexer would compute for these rows
+	// KnownIdx: the receiving store already holds a block index (of an honest block of full-width rows, from an
+	// earlier fetch) and the forged table names that one as the index of its block
+	KnownIdx bool `json:"known_idx,omitempty"`
 	// Variant "" = contradicting block/table/commit; "commit-time": a commit whose 16-byte time field holds TimeField
 	// instead of "<10 digits> <zone>"; "long-header": an object header of HeaderCont continuation bytes (HeaderByte each)
 	Variant    string `json:"variant,omitempty"`
@@ -105,6 +108,7 @@ func init() {
 				if r.Chance(0.3) {
 					f.RowsDecl = Pick(r, []int{0, 1, nrows + 1, 255, 256})
 				}
+				f.KnownIdx = r.Chance(0.35)
 				switch r.Intn(5) {
 				case 0:
 					f.Variant = "commit-time"
@@ -576,6 +580,36 @@ func execC17Forged(p *C17Plan, res *Result) {
 			idxSum = meowSum(ib.Bytes())
 		}
 	}
+	dst := NewStore("dst", &World{})
+	if f.KnownIdx {
+		honest := make([][]string, len(rows))
+		for i := range honest {
+			honest[i] = make([]string, max(f.Cols, 1))
+			for j := range honest[i] {
+				honest[i][j] = fmt.Sprintf("%03d-%d", i, j)
+			}
+		}
+		var hpk []uint32
+		for _, k := range tbl.PK {
+			if int(k) < max(f.Cols, 1) {
+				hpk = append(hpk, k)
+			}
+		}
+		idx, err := objects.IndexBlock(enc, newMeow(), honest, hpk)
+		if err != nil {
+			res.Invalid("honest index: %v", err)
+			return
+		}
+		var ib bytes.Buffer
+		idx.WriteTo(&ib)
+		sum, _, err := objects.SaveBlockIndex(dst, nil, ib.Bytes())
+		if err != nil {
+			res.Invalid("save index: %v", err)
+			return
+		}
+		idxSum = sum
+		res.probe("forged_table_names_a_block_index_already_held", 1)
+	}
 	tbl.BlockIndices = [][]byte{idxSum}
 	var tb bytes.Buffer
 	tbl.WriteTo(&tb)
@@ -593,9 +627,8 @@ func execC17Forged(p *C17Plan, res *Result) {
 	pw.WriteObject(packfile.ObjectBlock, s2.Encode(nil, bb.Bytes()))
 	pw.WriteObject(packfile.ObjectTable, tb.Bytes())
 	pw.WriteObject(packfile.ObjectCommit, cb.Bytes())
-	dst := NewStore("dst", &World{})
 	var rerr error
-	if !guarded(res, fmt.Sprintf("ObjectReceiver.Receive of a forged packfile (table of %d columns, key %v, block rows of widths %v, declared rows %d)", f.Cols, f.PK, f.Widths, f.RowsDecl), pf.Len(), func() error {
+	if !guarded(res, fmt.Sprintf("ObjectReceiver.Receive of a forged packfile (table of %d columns, key %v, block rows of widths %v, declared rows %d, naming a block index the store already holds: %v)", f.Cols, f.PK, f.Widths, f.RowsDecl, f.KnownIdx), pf.Len(), func() error {
 		pr, err := packfile.NewPackfileReader(io.NopCloser(bytes.NewReader(pf.Bytes())))
 		if err != nil {
 			rerr = err
